@@ -129,6 +129,43 @@ def check_instance(t, cl, term, inst, origterm, forms, versions_for, labels):
             t.outcome("ok-" + fname)
 
 
+def edit_and_recheck(t, cl, cls, term, inst, vf):
+    """the instance was just written once; edit it through public attribute assignment (an element of a nested
+    sub-aggregate, an element of its own, a further list member) and write it again: the file must say what the
+    instance holds NOW"""
+    edits = []
+    chs = S.children(cls)
+    for c in chs:
+        if c.kind == "sub" and vars(inst).get(c.name) is not None:
+            sub = vars(inst)[c.name]
+            for cc in S.children(type(sub)):
+                if cc.kind == "elem" and vars(sub).get(cc.name) is not None and len(U.alphabet(cc)) > 1:
+                    alt = next(v for v in U.alphabet(cc) if S.norm_value(v) != S.norm_value(vars(sub)[cc.name]))
+                    edits.append((f"{c.name}.{cc.name}={alt!r}", lambda sub=sub, cc=cc, alt=alt: setattr(sub, cc.name, alt)))
+                    break
+            if edits:
+                break
+    for c in chs:
+        if c.kind == "elem" and vars(inst).get(c.name) is not None and len(U.alphabet(c)) > 1:
+            alt = next(v for v in U.alphabet(c) if S.norm_value(v) != S.norm_value(vars(inst)[c.name]))
+            edits.append((f"{c.name}={alt!r}", lambda c=c, alt=alt: setattr(inst, c.name, alt)))
+            break
+    lk = [c for c in chs if c.kind == "lagg"]
+    if lk and not U.hint(cls).get("one_per_kind"):
+        m = U.build(U.member_default(lk[0], 2))
+        edits.append((f"append {lk[0].name}", lambda m=m: inst.append(m)))
+    for label, fn in edits:
+        try:
+            fn()
+        except Exception:
+            continue
+        now = S.inst_to_term(inst)
+        t.count("instances")
+        t.count("nontrivial-instances")
+        t.count("edited-instances")
+        check_instance(t, cl, now, inst, now, FORMS, vf, ("written-once-then-edited:" + label,))
+
+
 def work(chunk):
     t = Tally()
     cl = client()
@@ -156,6 +193,8 @@ def work(chunk):
             else:
                 vf = lambda major, n=n: [V1[(n + rot) % len(V1)]] if major == 1 else [V2[(n + rot) % len(V2)]]
             check_instance(t, cl, term, inst, origterm, FORMS, vf, labels)
+            if not labels and basekind == "MAXS":
+                edit_and_recheck(t, cl, cls, term, inst, vf)
         t.count("class-baselines")
     return t
 
@@ -189,7 +228,7 @@ def run(ctx):
         "MIN within <=2 deviations, MAXS within <=1 (sub-aggregates also switched to their MAXS), MAXD") +
         " (deviation dimensions: each element over its value alphabet or absent, each sub-aggregate present/absent, each at-most-one/exactly-one group switched, "
         "each repeated kind with 0/1/2/3 distinguishable members, member order reversed/rotated) x 6 wire forms; header version rotating per instance, all 11 "
-        "versions on the baselines; distinct_nontrivial = distinct deviated instances the constructor accepted (baselines not counted); evaluations = round trips",
+        "versions on the baselines; every MAXS instance is also edited after having been written (nested element, own element, appended list member) and written again; distinct_nontrivial = distinct deviated instances the constructor accepted (baselines not counted); evaluations = round trips",
         "instances": tally.counts["instances"],
         "refused_by_constructor": tally.counts.get("refused-by-constructor", 0),
         "classes": len(classes),
